@@ -247,7 +247,7 @@ class History:
                 msgs = [decode_msg(m) for m in raw]
             calls.append({"entry": c["entry"], "outcome": o, "kind": err_kind(r), "msgs": msgs,
                           "sender": c.get("sender"), "funds": c.get("funds"), "msg": c.get("msg"),
-                          "panic": r.get("panic")})
+                          "id": c.get("id"), "result_in": c.get("result_in"), "panic": r.get("panic")})
         return {"ev": ev, "committed": tx["committed"], "calls": calls, "before": self.prev, "after": self.dump}
 
     def _sync_dump(self):
